@@ -190,7 +190,7 @@ func Inspect(msg []byte) (q Query, pq dnsmessage.Question, id uint16) {
 
 // Build encodes a response: the echoed question (if any), rcode and answers.
 func Build(id uint16, question *dnsmessage.Question, rcode int, rrs []RR, compress bool) ([]byte, error) {
-	b := dnsmessage.NewBuilder(nil, dnsmessage.Header{ID: id, Response: true, RecursionDesired: true, RecursionAvailable: true, RCode: dnsmessage.RCode(rcode)})
+	b := dnsmessage.NewBuilder(nil, dnsmessage.Header{ID: id, Response: true, RecursionDesired: true, RecursionAvailable: true, RCode: dnsmessage.RCode(rcode & 0xf)})
 	if compress {
 		b.EnableCompression()
 	}
@@ -230,6 +230,19 @@ func Build(id uint16, question *dnsmessage.Question, rcode int, rrs []RR, compre
 			err = errName
 		}
 		if err != nil {
+			return nil, err
+		}
+	}
+	if rcode > 15 {
+		// extended RCODE (RFC 6891 section 6.1.3): the upper eight bits travel in the TTL field of an OPT record
+		if err := b.StartAdditionals(); err != nil {
+			return nil, err
+		}
+		var h dnsmessage.ResourceHeader
+		if err := h.SetEDNS0(1232, dnsmessage.RCode(rcode), false); err != nil {
+			return nil, err
+		}
+		if err := b.OPTResource(h, dnsmessage.OPTResource{}); err != nil {
 			return nil, err
 		}
 	}
